@@ -278,8 +278,10 @@ func (w *inotify) register(path string, flags uint32, recurse bool) error {
 			flags |= existing.flags
 		}
 
+		// Check err too: for a path with a NUL byte in it the system call isn't
+		// made at all, and we get 0 (not -1) and EINVAL.
 		wd, err := unix.InotifyAddWatch(w.fd, path, flags)
-		if wd == -1 {
+		if wd == -1 || err != nil {
 			return nil, err
 		}
 
